@@ -19,7 +19,7 @@ import z3
 from vlib import core, pool
 from vlib.pool import JobResult
 from harness import hc
-from harness.C07 import plain
+plain = hc.plain
 from symrun import engine as E
 from symrun.values import SymInt, SymFloat, symint, realval
 from symrun.strings import SymStr, Cell, symcell, cell_test, parse_int, _mk
@@ -49,7 +49,7 @@ SCRIPTS = {
         "    else: ok = int(g[5]) < 60\n"
         "    back = Fraction(athlib.parse_hms(r))\n"
         "    d = Fraction(seconds)\n"
-        "    ok = ok and back >= d - Fraction(1, 10**5) and back < d + Fraction(1, 10**prec) + Fraction(1, 10**9)\n"
+        "    ok = ok and back >= d - Fraction(1, 10**5) - Fraction(1, 10**8) and back < d + Fraction(1, 10**prec) + Fraction(1, 10**8)\n"
         "print(repr(seconds), prec, '->', repr(r))\nsys.exit(0 if ok else 1)\n"),
     'fmt-raises': 'import sys, athlib\nseconds = {seconds}\nprec = {prec}\n' + (
         "try:\n    r = athlib.format_seconds_as_time(seconds, prec); bad = False\nexcept Exception as e:\n    r = repr(e); bad = True\nprint(repr(seconds), prec, '->', r)\nsys.exit(1 if bad else 0)\n"),
@@ -64,7 +64,7 @@ SCRIPTS = {
         "    else: ok = int(g[5]) < 60\n"
         "    back = Fraction(athlib.parse_hms(r))\n"
         "    d = Fraction(seconds)\n"
-        "    ok = ok and back >= d - Fraction(1, 10**5) and back < d + Fraction(1, 10**prec) + Fraction(1, 10**9)\n"
+        "    ok = ok and back >= d - Fraction(1, 10**5) - Fraction(1, 10**8) and back < d + Fraction(1, 10**prec) + Fraction(1, 10**8)\n"
         "print(repr(seconds), prec, '->', repr(r))\nsys.exit(0 if ok else 1)\n"),
     'fmt8-raises': 'import sys, athlib\nS = {S}\nV = {V}\nprec = {prec}\nseconds = S + V / 1e8\n' + (
         "try:\n    r = athlib.format_seconds_as_time(seconds, prec); bad = False\nexcept Exception as e:\n    r = repr(e); bad = True\nprint(repr(seconds), prec, '->', r)\nsys.exit(1 if bad else 0)\n"),
@@ -146,17 +146,33 @@ class FracProxy(object):
         self.V = V          # z3 Int: round(frac * 10**8), 0 .. 10**8
 
     def _sx_format_fixed(self, prec, width, zero):
-        if prec != 8 or width:
-            raise E.Unsupported('fraction formatted with %%.%df (contract is stated for %%.8f)' % prec)
+        if width:
+            raise E.Unsupported('fraction formatted with a field width')
         eng = E.cur()
-        ip = SymInt(self.V / (10 ** 8))
-        cells = list(SymStr.lift(render_int(ip)).cells) + ['.']
-        fr = z3.IntVal(0)
-        for i in range(8):
-            c = symcell('0123456789', 'fd')
-            cells.append(c)
-            fr = fr * 10 + (c.var - 48)
-        eng.add(fr == self.V % (10 ** 8))
+        if prec == 8:
+            W = self.V
+        else:
+            # '%.Nf' shows W = round(frac * 10**N); frac is known through V = round(frac * 10**8) only, so W is any
+            # integer compatible with some frac in [(V - 1/2), (V + 1/2)] / 10**8  (sound over-approximation)
+            W = z3.Int(eng.fresh_name('W'))
+            eng.overapprox_used = True
+            if prec < 8:
+                k = 10 ** (8 - prec)
+                eng.add(z3.And(W >= 0, 2 * W * k - 2 * self.V <= k + 1, 2 * self.V - 2 * W * k <= k + 1))
+            else:
+                j = 10 ** (prec - 8)
+                eng.add(z3.And(W >= 0, 2 * W - 2 * self.V * j <= j + 1, 2 * self.V * j - 2 * W <= j + 1))
+        p = 10 ** prec
+        ip = SymInt(W / p)
+        cells = list(SymStr.lift(render_int(ip)).cells)
+        if prec:
+            cells.append('.')
+            fr = z3.IntVal(0)
+            for i in range(prec):
+                c = symcell('0123456789', 'fd')
+                cells.append(c)
+                fr = fr * 10 + (c.var - 48)
+            eng.add(fr == W % p)
         return _mk(cells)
 
     def __getattr__(self, name):
@@ -242,10 +258,12 @@ def body_fmt(form, prec):
         mv = val_term(fields[-2]) if len(fields) >= 2 else z3.IntVal(0)
         scaled = ((hv * 60 + mv) * 60 + val_term(sec_int)) * (10 ** prec) + (val_term(last[dots[0] + 1:]) if dots else 0)
         if form == 'frac8':
-            U5 = V / 1000                              # first five decimals of the fixed-point text (noise beyond them)
-            step = 10 ** (5 - prec)
-            Eo = (U5 + step - 1) / step
-            eng.check(scaled == S.term * (10 ** prec) + Eo, lab)
+            # the property itself, in units of 1e-8 s (seconds = S + V/1e8 up to the 5e-9 of the fixed-point contract):
+            #   text >= seconds - 1e-5 (noise)    and    text < seconds + 10**-prec
+            text8 = scaled * (10 ** (8 - prec))
+            dur8 = S.term * (10 ** 8) + V
+            eng.check(text8 >= dur8 - 1000 - 1, lab)
+            eng.check(text8 < dur8 + 10 ** (8 - prec) + 1, lab)
             obs = [('athlib.format_seconds_as_time(S + V / 1e8, prec)', r)]
         else:
             eng.check(scaled == seconds.term * (10 ** prec), lab)
